@@ -16,18 +16,26 @@ LEAN_TARGETS = ['Nitime.Props.C19']
 RULE = ('planted designs from one PRNG state: response length L 2..8 (quick; to 32 thorough), 1-3 event types from '
         '{1,2,3,5,7,-1,-2,-3}, overlapping (FIR) or separated (ETA/ETS/et_data) placements, 1-d / 1-3 channel data, '
         'shared or per-channel events, offsets 0..3 (-3..3 for Events input), correct_baseline/zscore flags, 10 sampling '
-        'intervals; integer responses (exact in binary64) and noisy variants; distinct = distinct protocol line; '
+        'intervals; integer responses (exact in binary64) and noisy variants; AMPLITUDE SCALE: every planted design is also run with '
+        'per-channel gains over the decades 1e-300..1e300 (exact powers of two 2^-990..2^990 and decimal m*10^k; one channel at '
+        'gain 1 next to a channel at e.g. 1e-11 in the same recording; all four outputs, both event representations, read '
+        'sequences), each channel judged relative to ITS OWN scale; distinct = distinct protocol line; '
         'non-trivial = at least one event and a non-zero signal')
 ASSUMPTIONS = ['event codes are integers; responses and data are finite binary64 values (planted ones integer-valued)',
                'windows of all events lie inside the recording (k + offset + L <= N), the domain on which the estimators are defined',
                'FIR designs are full column rank (checked by an independent dense rank computation; rank-deficient designs are counted and skipped)',
-               'ets is judged only for types with >= 2 occurrences (the standard error of one sample is undefined: nan in both)']
+               'ets is judged only for types with >= 2 occurrences (the standard error of one sample is undefined: nan in both)',
+               'amplitudes stay inside the binary64 normal range with head-room for the sums the estimators form (|gain| in 1e-300..1e300; '
+               'for ets with decimal gains and for noisy data 1e-140..1e140, because the standard error squares the deviations)']
 TRUSTED_EXTRA = ['scipy.linalg.pinv(X^T X) X^T y is modelled, for full column rank, as the exact solution of the normal equations (own Gaussian '
-                 'elimination over Rat, proved sound and total in Lean); binary64 rounding of LAPACK is not modelled (FIR compared at 1e-9 of the largest magnitude)',
+                 'elimination over Rat, proved sound and total in Lean; Lean also proves that ANY matrix P with G P G = G for the invertible Gram matrix G, '
+                 'over Q or R, gives P X^T y = the model\'s result: firSolve_eq_pinv(_real) -- what stays trusted is that scipy\'s pinv returns such a P up to rounding); '
+                 'binary64 rounding of LAPACK is not modelled (FIR compared at 1e-9 of the largest magnitude OF EACH CHANNEL)',
                  'np.unique / np.where / np.roll / np.hstack / np.mean / scipy.stats.sem / fancy indexing are modelled by their documented semantics',
                  'designEntry is the closed form of the accumulated design matrix; Lean proves it equal to the per-event accumulation (designEntry_eq_eventSum) '
                  'and the op `design` compares it with utils.fir_design_matrix entry by entry',
-                 'Rat -> binary64 on output uses Model/F64 (validated bit-for-bit in C01)']
+                 'Rat -> binary64 on output uses Model/F64 (validated bit-for-bit in C01) in the normal range and the model\'s own `toFloatSub` (round to the '
+                 '2^-1074 grid) below 2^-1022 (only rounding dust of recordings at amplitude ~1e-300 gets there)']
 
 UNIT_PS = {'ps': 1, 'ns': 10**3, 'us': 10**6, 'ms': 10**9, 's': 10**12}
 SIS = [(2.0, 's'), (1.0, 's'), (0.5, 's'), (0.25, 's'), (0.1, 's'), (0.3, 's'), (1.5, 's'), (3, 'ms'), (7, 'ms'), (250, 'ms')]
@@ -172,13 +180,17 @@ def run_seq_impl(sp):
     return ' ;; '.join(firsts)
 
 
-def same_out(w, x, y):
+def same_out(sp, w, x, y):
     if x == y:
         return True
     a, b = parse_out(x), parse_out(y)
     if a is None or b is None or a[0] != b[0]:
         return False
-    return close_nan(a[1], b[1], 1e-12)
+    if w == 'etdata':
+        return len(a[1]) == len(b[1]) and all(p == q or (p != p and q != q) for p, q in zip(a[1], b[1]))
+    q = dict(sp)
+    q['what'] = w
+    return close_per_channel(q, a[1], b[1], 1e-12)
 
 
 def sequence_failures(sp, order):
@@ -201,11 +213,11 @@ def sequence_failures(sp, order):
             add('sequence/%s/input-mutated' % w, 'reading %s (order %s, offset %d) changed %s' % (
                 w, '>'.join(order), sp['off'], ','.join(mutated[i])))
     for i, w in enumerate(order):
-        if not same_out(w, firsts[i], fresh[w]):
+        if not same_out(sp, w, firsts[i], fresh[w]):
             first = 'multi'
             for v in order[:i]:
                 f2, _, _ = run_sequence(sp, [v, w])
-                if not same_out(w, f2[1], fresh[w]):
+                if not same_out(sp, w, f2[1], fresh[w]):
                     first = v
                     break
             add('sequence/%s-then-%s/value' % (first, w), '%s read after %s on the same analyzer (offset %d) differs from a fresh analyzer: %s vs %s' % (
@@ -261,13 +273,51 @@ def parse_out(s):
     return s, []
 
 
-def close_nan(a, b, rtol):
+def close_nan(a, b, rtol, atol=1e-300):
     """nan positions must coincide; the remaining entries agree to rtol of the largest magnitude"""
     if len(a) != len(b) or any((x != x) != (y != y) for x, y in zip(a, b)):
         return False
     fa = [x for x in a if x == x]
     fb = [y for y in b if y == y]
-    return close_vec(fa, fb, rtol=rtol, atol=1e-300)
+    return close_vec(fa, fb, rtol=rtol, atol=atol)
+
+
+def n_channels(sp):
+    return max(sp.get('nch', 0), 1)
+
+
+def gain_of(sp, ch):
+    """amplitude scale of channel `ch` (1 for an unscaled design)"""
+    g = sp.get('gains')
+    return abs(float(g[ch])) if g else 1.0
+
+
+def chan_blocks(vals, C):
+    """FIR / eta / ets values are laid out channel-major with equally long channel blocks"""
+    if C <= 1 or len(vals) % C:
+        return [vals]
+    n = len(vals) // C
+    return [vals[i * n:(i + 1) * n] for i in range(C)]
+
+
+def close_per_channel(sp, a, b, rtol):
+    """every channel is compared relative to ITS OWN magnitude (a recording may hold a channel of
+    amplitude 1e-11 next to an ordinary one: a tolerance taken from the largest channel would not see
+    the small one at all).  For a noise-free planted ets (truth 0) the comparison is absolute at
+    1e-12 of the channel's amplitude scale instead (0 vs a few ulp of rounding dust)."""
+    if len(a) != len(b):
+        return False
+    C = n_channels(sp)
+    A, B = chan_blocks(a, C), chan_blocks(b, C)
+    if len(A) != len(B):
+        return False
+    for ch, (x, y) in enumerate(zip(A, B)):
+        if close_nan(x, y, rtol, atol=0.0):
+            continue
+        if sp.get('what') == 'ets' and sp.get('planted') and len(A) == C and close_nan(x, y, 0.0, atol=1e-12 * gain_of(sp, ch)):
+            continue
+        return False
+    return True
 
 
 def make_cmp_seq(sp):
@@ -285,7 +335,8 @@ def make_cmp_seq(sp):
 
 
 def make_cmp(sp):
-    exact = bool(sp.get('integer')) and sp.get('what') in ('eta', 'etdata')
+    # et_data hands out copies of the samples: always bit-exact; eta of integer (or power-of-two scaled) data too
+    exact = sp.get('what') == 'etdata' or (bool(sp.get('integer')) and sp.get('what') == 'eta')
     rtol = 1e-9 if sp.get('what') == 'fir' else 1e-12
 
     def one(impl, model):
@@ -298,7 +349,7 @@ def make_cmp(sp):
             return False
         if exact:
             return all((x == y) or (x != x and y != y) for x, y in zip(a[1], b[1])) and len(a[1]) == len(b[1])
-        return close_nan(a[1], b[1], rtol)
+        return close_per_channel(sp, a[1], b[1], rtol)
 
     def cmp(impl, model):
         if model == 'singular':
@@ -459,6 +510,72 @@ def add_noise(rng, sp):
     return sp
 
 
+# amplitude scale ------------------------------------------------------------------------------------
+DECADES = [-300, -250, -200, -150, -100, -60, -30, -20, -15, -13, -12, -11, -10, -9, -8, -7, -6, -4, -3, -2, -1,
+           1, 2, 3, 4, 6, 8, 9, 10, 12, 15, 20, 30, 60, 100, 150, 200, 250, 300]
+MANTISSAS = [1.0, 1.0, 2.0, 2.5, 5.0, 3.0, 7.0]
+
+
+def is_pow2(g):
+    import math
+    return g > 0 and math.frexp(g)[0] == 0.5
+
+
+def draw_gain(rng, lim=300):
+    """one amplitude factor from the decades 1e-lim..1e+lim: an exact power of two (scaling is then exact in
+    binary64: eta / et_data stay bit-exact) or a decimal m*10^k (what a change of physical units looks like)"""
+    r = rng.random()
+    if r < 0.35:
+        kmax = int(lim * 3.3)
+        k = rng.choice([rng.randint(-kmax, kmax), rng.randint(-60, 60), rng.choice([-1, 1]) * rng.randint(27, 45)])
+        return 2.0 ** (k or 1)
+    dec = [d for d in DECADES if abs(d) <= lim]
+    k = rng.choice(dec) if r < 0.85 else rng.choice([-1, 1]) * rng.randint(1, lim)
+    m = rng.choice(MANTISSAS)
+    if abs(k) >= lim:
+        m = 1.0
+    return float('%ge%d' % (m, k))
+
+
+def draw_gains(rng, C, lim=300):
+    """per-channel gains; with several channels mostly MIXED: one channel keeps gain 1 next to scaled ones"""
+    if C == 1:
+        return [draw_gain(rng, lim)]
+    mode = rng.random()
+    if mode < 0.6:
+        g = [draw_gain(rng, lim) for _ in range(C)]
+        g[rng.randrange(C)] = 1.0
+    elif mode < 0.85:
+        g = [draw_gain(rng, lim) for _ in range(C)]
+    else:
+        g = [draw_gain(rng, lim)] * C
+    return g
+
+
+def scale_spec(sp, gains):
+    """the same planted design with channel ch of the recording (and of the planted truth) multiplied by gains[ch]"""
+    C, N = n_channels(sp), sp['N']
+    assert sp.get('planted') and 'gains' not in sp and len(gains) == C
+    q = dict(sp)
+    q['data'] = [float(gains[ch]) * v for ch in range(C) for v in sp['data'][ch * N:(ch + 1) * N]]
+    q['resp'] = [{c: [float(gains[ch]) * x for x in r] for c, r in sp['resp'][ch].items()} for ch in range(C)]
+    q['gains'] = [float(g) for g in gains]
+    q['integer'] = bool(sp.get('integer')) and all(is_pow2(g) for g in gains)
+    q.pop('rank_deficient', None)
+    return q
+
+
+def gen_scaled(rng, sp):
+    """a planted spec at per-channel amplitudes over the decades (ets with inexact gains: 1e-140..1e140)"""
+    C = n_channels(sp)
+    g = draw_gains(rng, C)
+    if sp['what'] == 'ets' and not all(is_pow2(x) for x in g):
+        g = [x if (is_pow2(x) or 1e-140 <= x <= 1e140) else draw_gain(rng, 140) for x in g]
+    if all(x == 1.0 for x in g):
+        g[0] = 1e-11
+    return scale_spec(sp, g)
+
+
 def gen_events(rng, tier, what):
     """Events input: one type, separated placements, offsets may be negative"""
     L = rng.randint(2, 8)
@@ -533,6 +650,41 @@ def fixed_specs():
             out.append({'kind': 'events', 'what': 'eta', 'off': off, 'L': 2, 'cb': cb, 'zs': False, 'si': 1.0, 'unit': 's', 'nch': 0,
                         'N': 10, 'evch': 0, 'times': [k * 10**12 for k in slots], 'slots': slots, 'data': y,
                         'resp': [{'1': [4.0, 7.0]}], 'planted': True, 'integer': True})
+    # amplitude scale: a two-channel recording, channel 0 ordinary, channel 1 the same kind of signal x 1e-11 (MEG in
+    # tesla) / x 2^-40 / x 1e12; and 1-d recordings at 1e-13, 1e-300, 1e300 -- every output
+    ev2 = [0, 1, 2, 0, 0, 1, 0, 2, 0, 2, 1, 0, 0, 0, 0]
+    evs = [0, 1, 0, 0, 2, 0, 0, 1, 0, 0, 2, 0, 0, 0, 0]
+    r2 = [{'1': [1.0, -2.0, 4.0], '2': [3.0, 5.0, -1.0]}, {'1': [2.0, 7.0, -3.0], '2': [-4.0, 1.0, 6.0]}]
+    for what in ('fir', 'eta', 'ets', 'etdata'):
+        e = ev2 if what == 'fir' else evs
+        for off in (0, 1):
+            n = len(e) + off
+            e3 = e + [0] * off
+            base2 = {'kind': 'series', 'what': what, 'off': off, 'L': 3, 'cb': False, 'zs': False, 'si': 1.0, 'unit': 's', 'nch': 2,
+                     'N': n, 'evch': 0, 'ev': e3, 'data': plant(e3, r2[0], 3, off, n) + plant(e3, r2[1], 3, off, n), 'resp': r2,
+                     'planted': True, 'integer': True}
+            for g in ([1.0, 1e-11], [2.0 ** -40, 1.0], [1e12, 1.0]):
+                out.append(scale_spec(base2, g))
+            base1 = dict(base2)
+            base1.update(nch=0, data=plant(e3, r2[0], 3, off, n), resp=r2[:1])
+            for g in ([1e-13], [1e-300], [1e300], [2.0 ** -990]):
+                if what == 'ets' and g[0] in (1e-300, 1e300):
+                    continue
+                out.append(scale_spec(base1, g))
+    for cb in (False, True):
+        slots = [2, 6]
+        y = [0.0] * 10
+        for k in slots:
+            y[k + 1] += 4.0
+            y[k + 2] += 7.0
+        b = {'kind': 'events', 'what': 'eta', 'off': 1, 'L': 2, 'cb': cb, 'zs': False, 'si': 1.0, 'unit': 's', 'nch': 2,
+             'N': 10, 'evch': 0, 'times': [k * 10**12 for k in slots], 'slots': slots, 'data': y + [2 * v for v in y],
+             'resp': [{'1': [4.0, 7.0]}, {'1': [8.0, 14.0]}], 'planted': True, 'integer': True}
+        for what in ('eta', 'ets'):
+            b2 = dict(b)
+            b2['what'] = what
+            out.append(scale_spec(b2, [1.0, 1e-11]))
+            out.append(scale_spec(b2, [2.0 ** 900, 3e-9]))
     out.append({'kind': 'design', 'L': 2, 'ev': [0, 1, 0, -1, 0, 0]})
     out.append({'kind': 'design', 'L': 2, 'ev': [0, 1, 0, 0, 0, 1]})     # short slice -> ValueError
     out.append({'kind': 'design', 'L': 3, 'ev': [2, 1, 2, 0, 7, 0, 0]})
@@ -552,6 +704,11 @@ def seq_specs(rng, tier):
         base = gen_series(rng, tier, 'ets', positive=True, off=o)
         base['zs'] = False
         base['cb'] = (len(out) == 0) or rng.random() < 0.4
+        if o == 2:     # read sequences on a recording with mixed channel amplitudes
+            while not base['nch'] >= 2:
+                base = gen_series(rng, tier, 'ets', positive=True, off=o)
+                base['zs'], base['cb'] = False, rng.random() < 0.4
+            base = gen_scaled(rng, base)
         for order in itertools.permutations(['fir', 'eta', 'ets', 'etdata']):
             q = dict(base)
             q.update(kind='seq', base='series', order=list(order), what='seq')
@@ -560,6 +717,9 @@ def seq_specs(rng, tier):
         base = gen_events(rng, tier, 'eta')
         while base['off'] == 0 and i > 0:
             base = gen_events(rng, tier, 'eta')
+        if i % 3 == 2:
+            base['what'] = 'ets'
+            base = gen_scaled(rng, base)
         for order in (['eta', 'ets'], ['ets', 'eta']):
             q = dict(base)
             q.update(kind='seq', base='events', order=order, what='seq')
@@ -572,6 +732,8 @@ def gen_specs(rng, tier):
     specs = list(fixed_specs())
     for i in range(4 if tier == 'quick' else 40):
         specs.append(gen_many_events(rng, positive=(i % 2 == 0)))
+        if i % 2 == 1:
+            specs.append(gen_scaled(rng, specs[-1]))
     specs += seq_specs(rng, tier)
     for i in range(n):
         for what in ('fir', 'eta', 'ets', 'etdata'):
@@ -579,6 +741,8 @@ def gen_specs(rng, tier):
             specs.append(sp)
             if what != 'etdata' and i % 3 == 0:
                 specs.append(add_noise(rng, sp))
+            if i % 3 != 0:
+                specs.append(gen_scaled(rng, sp))
         for what in ('eta', 'ets'):
             sp = gen_events(rng, tier, what)
             specs.append(sp)
@@ -586,6 +750,11 @@ def gen_specs(rng, tier):
                 specs.append(series_of_events(sp))
             if i % 3 == 0:
                 specs.append(add_noise(rng, sp))
+            if i % 3 != 0:
+                q = gen_scaled(rng, sp)
+                specs.append(q)
+                if q['off'] >= 0 and i % 2 == 1:
+                    specs.append(series_of_events(q))
         # design matrices straight from utils.fir_design_matrix
         N = rng.randint(4, 30)
         L = rng.randint(1, 6)
@@ -683,26 +852,39 @@ def check_case(c):
         if fields['blocks'] != ilist(want_blocks):
             return fail('shape', 'occurrence counts %s, want %s' % (fields['blocks'], want_blocks))
         if vals != want:
-            return fail('value', 'an occurrence differs from the planted response')
+            return fail('value', 'an occurrence differs from the planted response' + (' (gains %s)' % sp['gains'] if sp.get('gains') else ''))
         return None
     want, shape = expected(sp)
     if fields['shape'] != ilist(shape):
         return fail('shape', 'shape %s, want %s' % (fields['shape'], shape))
-    if w == 'fir':
-        ok = close_vec(vals, want, rtol=1e-9)
-    elif w == 'ets':
-        ok = len(vals) == len(want) and all((y != y) or abs(x) <= 1e-12 for x, y in zip(vals, want))
+    # every channel is judged relative to its own amplitude scale
+    C = n_channels(sp)
+    bad = None
+    if len(vals) != len(want):
+        bad = (0, 'length')
     else:
-        ok = len(vals) == len(want) and all(x == y for x, y in zip(vals, want))
-    if ok:
+        for ch, (bv, bw) in enumerate(zip(chan_blocks(vals, C), chan_blocks(want, C))):
+            g = gain_of(sp, ch)
+            if w == 'fir':
+                ok = close_vec(bv, bw, rtol=1e-9)
+            elif w == 'ets':
+                ok = all((y != y) or abs(x) <= 1e-12 * g for x, y in zip(bv, bw))
+            elif sp.get('integer'):
+                ok = all(x == y for x, y in zip(bv, bw))
+            else:       # decimal gain: the mean of k identical binary64 values may be off by an ulp
+                ok = close_vec(bv, bw, rtol=1e-12)
+            if not ok:
+                bad = (ch, 'gain %g' % g)
+                break
+    if bad is None:
         return None
     # classify the symptom
     L = sp['L']
-    if w == 'fir':
+    if w == 'fir' and len(vals) == len(want):
         rows = ev_rows(sp)
         codes = [cd for ch in range(max(sp['nch'], 1)) for cd in my_types(rows[ch])]
         flipped = [v for i, cd in enumerate(codes) for v in ([-x for x in want[i * L:(i + 1) * L]] if cd < 0 else want[i * L:(i + 1) * L])]
-        if any(cd < 0 for cd in codes) and close_vec(vals, flipped, rtol=1e-9):
+        if any(cd < 0 for cd in codes) and all(close_vec(x, y, rtol=1e-9) for x, y in zip(chan_blocks(vals, C), chan_blocks(flipped, C))):
             return fail('negative-code/sign-flipped', 'the response of a negative event code is returned negated')
     if w == 'eta' and kind == 'events' and sp['cb']:
         raw = [x for ch in range(max(sp['nch'], 1)) for x in sp['resp'][ch]['1']]
@@ -713,6 +895,11 @@ def check_case(c):
         blocks_v = sorted(tuple(vals[i:i + L]) for i in range(0, len(vals), L))
         if blocks_w == blocks_v:
             return fail('order/not-sorted-by-code', 'rows are not ordered by sorted event code')
+    if sp.get('gains') and len(vals) == len(want):
+        bv, bw = chan_blocks(vals, C)[bad[0]], chan_blocks(want, C)[bad[0]]
+        zero = all(x == 0 for x in bv) and any(y != 0 for y in bw)
+        return fail('value', 'channel %d (amplitude %s, gains %s): estimate %s the planted response of that channel: got %s want %s' % (
+            bad[0], bad[1], sp['gains'], 'is identically 0 instead of' if zero else 'differs (relative to the channel\'s own scale) from', bv[:6], bw[:6]))
     return fail('value', 'estimate differs from the planted response: got %s want %s' % (vals[:8], want[:8]))
 
 
@@ -788,6 +975,22 @@ def metamorphic(rng, cases_):
         if f:
             f.case = None
             fails.append(f)
+    # homogeneity per channel over the amplitude decades (all four outputs, both event representations, noisy data too)
+    pool = [c for c in cases_ if c.meta and c.meta.get('kind') in ('series', 'events') and not c.impl.startswith('err')
+            and not c.meta.get('rank_deficient') and 'gains' not in c.meta]
+    for c in pool[1::3]:
+        m = c.meta
+        lim = 140 if (m['what'] == 'ets' or not m.get('integer')) else 300
+        g = draw_gains(rng, n_channels(m), lim)
+        if m['what'] == 'ets' or not m.get('integer'):
+            g = [x if 1e-140 <= x <= 1e140 else draw_gain(rng, 140) for x in g]
+        if all(x == 1.0 for x in g):
+            g[0] = 2.5e-11
+        f = scale_check(m, g)
+        n += 1
+        if f:
+            f.case = None
+            fails.append(f)
     return fails, n
 
 
@@ -806,6 +1009,53 @@ def linear_check(m, a, nseed):
     want = a * outs[0] + outs[1]
     if not close_vec(list(outs[2]), list(want), rtol=1e-9):
         return Failure('linear/%s/value' % m['what'], 'est(a*y1+y2) != a*est(y1)+est(y2) (a=%s)' % a, {'spec': m, 'lin': [a, nseed]})
+    return None
+
+
+def scale_check(m, gains):
+    """per-channel homogeneity: the estimate of diag(g)·Y is diag(g)·(estimate of Y) -- FIR, eta, et_data; ets with |g| --
+    every channel judged at its own scale (tolerance relative to g[ch] times that channel's data / estimate magnitude)"""
+    C, N, w = n_channels(m), m['N'], m['what']
+    rp = {'spec': m, 'scale': [float(g) for g in gains]}
+    q = dict(m)
+    q['data'] = [float(gains[ch]) * v for ch in range(C) for v in m['data'][ch * N:(ch + 1) * N]]
+    o1, o2 = parse_out(run_impl(m)), parse_out(run_impl(q))
+    if o1 is None:
+        return None      # judged on the case itself
+    if o2 is None:
+        return Failure('scale/%s/raises' % w, 'estimator raised on the same recording with channel gains %s' % gains, rp)
+    if o1[0] != o2[0] or len(o1[1]) != len(o2[1]):
+        return Failure('scale/%s/shape' % w, 'shape / axis changed with the amplitude: %s vs %s' % (o1[0][:80], o2[0][:80]), rp)
+    if w == 'etdata':
+        fields = dict(f.split('=') for f in o1[0].split()[1:])
+        counts = [int(t) for t in fields['blocks'].split(',')] if fields['blocks'] != '-' else []
+        per = len(counts) // C if C and len(counts) % C == 0 else None
+        if per is None:
+            return None
+        sizes = [sum(counts[ch * per:(ch + 1) * per]) * m['L'] for ch in range(C)]
+        A, B, k = [], [], 0
+        for n in sizes:
+            A.append(o1[1][k:k + n])
+            B.append(o2[1][k:k + n])
+            k += n
+    else:
+        A, B = chan_blocks(o1[1], C), chan_blocks(o2[1], C)
+        if len(A) != C:
+            return None
+    for ch in range(C):
+        g = float(gains[ch])
+        want = [abs(g) * x if w == 'ets' else g * x for x in A[ch]]
+        dmax = max([abs(v) for v in m['data'][ch * N:(ch + 1) * N]] + [0.0])
+        if w == 'etdata':
+            ok = len(want) == len(B[ch]) and all(x == y for x, y in zip(want, B[ch]))
+        elif w == 'fir':
+            ok = close_nan(B[ch], want, 1e-9, atol=0.0)
+        else:
+            ok = close_nan(B[ch], want, 0.0, atol=1e-12 * abs(g) * dmax)
+        if not ok:
+            zero = all(x == 0 for x in B[ch]) and any(y != 0 for y in want)
+            return Failure('scale/%s/value' % w, '%s of the recording with channel %d multiplied by %g %s %g x (%s of the original channel) '
+                           '(judged at that channel\'s scale): got %s want %s' % (w, ch, g, 'is identically 0, not' if zero else 'is not', g, w, B[ch][:6], want[:6]), rp)
     return None
 
 
@@ -850,6 +1100,8 @@ def _replay(d):
         return sequence_check(sp, d['order'], d.get('key'))
     if 'lin' in d:
         return linear_check(sp, d['lin'][0], d['lin'][1])
+    if 'scale' in d:
+        return scale_check(sp, d['scale'])
     c = mk_case(sp)
     if d.get('pair') == 'series':
         s = mk_case(series_of_events(sp))
